@@ -909,7 +909,12 @@ impl Hist {
             let cur_group = (wp.tick_current_index as i64).div_euclid(gs as i64);
             let acc = if max_acc == 0 { 0 } else { r.below(max_acc + 1) };
             let vr = if acc == 0 { 0 } else { r.below(acc + 1) };
-            (now.saturating_sub(r.pick(&[0u64, 1, 20, 100, 1000, 3599, 3600, 3601, 10000])), now.saturating_sub(r.pick(&[0u64, 5, 50, 500, 5000])), vr, cur_group + r.range_i(-30, 30), acc)
+            // the stored reference group is always the group of a tick inside [MIN-1, MAX] (update_reference writes
+            // floor(tick_current_index / group size); Lean: Path.InfoOK is preserved by every swap): outside that range
+            // FeeRateManager::new calls sqrt_price_from_tick_index on an out-of-range tick and panics
+            let g_lo = (-443637i64).div_euclid(gs as i64);
+            let g_hi = (443636i64).div_euclid(gs as i64);
+            (now.saturating_sub(r.pick(&[0u64, 1, 20, 100, 1000, 3599, 3600, 3601, 10000])), now.saturating_sub(r.pick(&[0u64, 5, 50, 500, 5000])), vr, (cur_group + r.range_i(-30, 30)).clamp(g_lo, g_hi), acc)
         };
         format!("H af {} {} {} {} {} {} {} {} {} {} {} {}", filter, decay, reduction, control, max_acc, gs, major, last_ref, last_major, vol_ref, group_ref, vol_acc)
     }
